@@ -162,13 +162,13 @@ EXPORT errno_t _mbstowcs_s_chk(size_t *restrict retvalp, wchar_t *restrict dest,
         } else {
             if (unlikely(destsz > destbos || len * sizeof(wchar_t) > destbos)) {
                 if (unlikely(dmax > RSIZE_MAX_WSTR || len > RSIZE_MAX_WSTR)) {
-                    handle_error((char *)(void *)dest, destbos,
+                    handle_werror(dest, destbos / sizeof(wchar_t),
                                  "mbstowcs"
                                  ": dmax/len exceeds max",
                                  ESLEMAX);
                     return RCNEGATE(ESLEMAX);
                 } else {
-                    handle_error((char *)(void *)dest, destbos,
+                    handle_werror(dest, destbos / sizeof(wchar_t),
                                  "mbstowcs"
                                  ": dmax/len exceeds destsz",
                                  EOVERFLOW);
